@@ -335,4 +335,90 @@ theorem parse_failure_fails (w : Walker) (lines : List Bytes) (h : parseAll line
     walkCfi w lines = none := by
   unfold walkCfi; rw [h]
 
+
+/-! ## 6. every other register: set from its rule, or unknown when the rule fails -/
+
+/-- **C06.6 (`reg_set_or_unknown`)** After a successful walk with rule map `m` and CFA `cfa`, for a
+    register `r` of the walker:
+    * if `p = (label, expr)` is the one rule whose label denotes `r` (directly or through an
+      alias), the caller's `r` is the rule's value when it evaluates (with the CFA available) and
+      fits the register width, and **unknown** when the rule fails — even if the callee's value
+      had been forwarded;
+    * if no rule's label denotes `r`, the caller's `r` is what was forwarded from the callee.
+
+    The remaining case is stated as it is in the code: a rule whose value does **not fit** the
+    register (32-bit walkers only) leaves the forwarded value in place — `set_caller_register`
+    fails and `walk_with_stack_cfi` ignores it. The property text asks for "set or unknown"; the
+    check reports this as the known finding `C06-unfit-value-keeps-forwarded-register`
+    (`fits_of_ptr8` shows it cannot happen on 64-bit walkers). -/
+theorem reg_set_or_unknown (w : Walker) (lines : List Bytes) (c : Caller)
+    (h : walkCfi w lines = some c) :
+    ∃ m cfa, parseAll lines [] = some m ∧ c.cfa = some cfa ∧
+      (∀ r p, p ∈ others m → w.memo p.1 = some r →
+          (∀ q ∈ others m, w.memo q.1 = some r → q = p) →
+          c.get r = match evalCfi w.env (some cfa) p.2 with
+                    | some v => if w.fits v then some v else lookupName w.fwd r
+                    | none => none) ∧
+      (∀ r, (∀ q ∈ others m, w.memo q.1 ≠ some r) → c.get r = lookupName w.fwd r) := by
+  obtain ⟨m, cfaE, raE, cfa, ra, hm, _, _, _, _, _, _, rfl⟩ := (walkCfi_some_iff w lines c).mp h
+  refine ⟨m, cfa, hm, (foldl_applyOther_cfa_ra w cfa _ _).1, ?_, ?_⟩
+  · intro r p hp hmemo huniq
+    rw [get_foldl_applyOther]
+    have hperm := sortBy_perm (fun a b : Name × Expr => bytesLe a.1 b.1) (others m)
+    rw [sortOthers, foldl_upd_unique w cfa r p _ _ (hperm.mem_iff.mpr hp) hmemo
+      (fun q hq => huniq q (hperm.mem_iff.mp hq))]
+    simp only [upd, hmemo, if_true, Caller.get]
+    cases evalCfi w.env (some cfa) p.2 <;> rfl
+  · intro r hnone
+    rw [get_foldl_applyOther]
+    have hperm := sortBy_perm (fun a b : Name × Expr => bytesLe a.1 b.1) (others m)
+    rw [sortOthers, foldl_upd_of_not_memo w cfa r _ _ (fun q hq => hnone q (hperm.mem_iff.mp hq))]
+    rfl
+
+/-- on a 64-bit walker every value fits: the "set or unknown" dichotomy is exact -/
+theorem fits_of_ptr8 (w : Walker) (hp : w.ptr = 8) (v : UInt64) : w.fits v = true := by
+  simp only [Walker.fits, hp, decide_eq_true_eq]
+  exact v.toNat_lt
+
+/-! ## 7. independence of the iteration order of the rule map -/
+
+/-- **C06.7 (`order_independent`)** If no two labels denote the same register, processing the
+    remaining rules in *any* order (any permutation of the hash map's entries) yields the same
+    caller: same CFA, same return address, same value-or-unknown for every register. -/
+theorem order_independent (w : Walker) (cfa : UInt64) (l₁ l₂ : List (Name × Expr)) (c : Caller)
+    (hperm : l₁.Perm l₂)
+    (hdistinct : ∀ x ∈ l₁, ∀ y ∈ l₁, w.memo x.1 = w.memo y.1 → w.memo x.1 ≠ none → x = y) :
+    (l₁.foldl (applyOther w cfa) c).cfa = (l₂.foldl (applyOther w cfa) c).cfa ∧
+    (l₁.foldl (applyOther w cfa) c).ra = (l₂.foldl (applyOther w cfa) c).ra ∧
+    ∀ r, (l₁.foldl (applyOther w cfa) c).get r = (l₂.foldl (applyOther w cfa) c).get r := by
+  refine ⟨?_, ?_, ?_⟩
+  · rw [(foldl_applyOther_cfa_ra w cfa l₁ c).1, (foldl_applyOther_cfa_ra w cfa l₂ c).1]
+  · rw [(foldl_applyOther_cfa_ra w cfa l₁ c).2, (foldl_applyOther_cfa_ra w cfa l₂ c).2]
+  · intro r
+    rw [get_foldl_applyOther, get_foldl_applyOther]
+    apply List.Perm.foldl_eq' hperm
+    intro x hx y hy z
+    apply upd_comm
+    intro h1 h2
+    exact hdistinct x hx y hy (h1.trans h2.symm) (by rw [h1]; simp)
+
+/-- **C06.7b** Whatever the labels denote: the order in which `walk_with_stack_cfi` processes the
+    remaining rules (sorted by name) is a function of the *set* of rules, not of the order in which
+    the hash map yields them (the map has one entry per name). Feeds C13. -/
+theorem sorted_order_canonical (l₁ l₂ : List (Name × Expr)) (hperm : l₁.Perm l₂)
+    (hkeys : ∀ x ∈ l₁, ∀ y ∈ l₁, x.1 = y.1 → x = y) : sortOthers l₁ = sortOthers l₂ := by
+  unfold sortOthers
+  let le := fun a b : Name × Expr => bytesLe a.1 b.1
+  have htot : ∀ a b : Name × Expr, le a b = true ∨ le b a = true := fun a b => bytesLe_total a.1 b.1
+  have htr : ∀ a b c : Name × Expr, le a b = true → le b c = true → le a c = true :=
+    fun a b c => bytesLe_trans a.1 b.1 c.1
+  apply List.Perm.eq_of_pairwise (le := fun a b => le a b = true)
+  · intro a b ha hb h1 h2
+    have ha' : a ∈ l₁ := (sortBy_perm le l₁).mem_iff.mp ha
+    have hb' : b ∈ l₁ := hperm.mem_iff.mpr ((sortBy_perm le l₂).mem_iff.mp hb)
+    exact hkeys a ha' b hb' (bytesLe_antisymm _ _ h1 h2)
+  · exact sortBy_pairwise le htot htr l₁
+  · exact sortBy_pairwise le htot htr l₂
+  · exact ((sortBy_perm le l₁).trans hperm).trans (sortBy_perm le l₂).symm
+
 end MdModel.Cfi
